@@ -167,10 +167,31 @@ func (s *Spec) Validate() (err error) {
 	s.ValidateJumpIf(specs)
 
 	// 3: validate resilience
+	errPrefix = "resilience"
+	policyKinds := map[string]string{}
 	for _, r := range s.Resilience {
-		_, err := resilience.NewPolicy(r)
+		policy, err := resilience.NewPolicy(r)
 		if err != nil {
 			panic(err)
+		}
+		policyKinds[policy.Name()] = policy.Kind()
+	}
+	for _, f := range s.Filters {
+		spec, _ := filters.NewSpec(nil, "", f)
+		referrer, ok := spec.(filters.ResiliencePolicyReferrer)
+		if !ok {
+			continue
+		}
+		retry, cb := referrer.ResiliencePolicyRefs()
+		for _, name := range retry {
+			if policyKinds[name] != resilience.RetryKind.Name {
+				panic(fmt.Errorf("filter %s: retry policy %s not found", spec.Name(), name))
+			}
+		}
+		for _, name := range cb {
+			if policyKinds[name] != resilience.CircuitBreakerKind.Name {
+				panic(fmt.Errorf("filter %s: circuit breaker policy %s not found", spec.Name(), name))
+			}
 		}
 	}
 
